@@ -23,7 +23,7 @@ from ..sysutil import files_to_mods, make_system
 
 ID = "C07"
 RULE = ("packages with 1-3 implementation modules, 1-9 definitions, each exported object re-exported by exactly one module "
-        "(5 import forms x 2 __all__ spellings x package/sibling), 1-2 consumer modules with 1-4 uses each (6 ways of reaching x 5 ways "
+        "(5 import forms x 2 __all__ spellings x package/sibling; a renamed export may clash with an unrelated class of the defining module), 1-2 consumer modules with 1-4 uses each (7 ways of reaching x 5 ways "
         "of using), x every reachable processing order (exhaustive when <= 120). Non-trivial when >=1 object is re-exported and >=1 "
         "consumer reaches it through the defining module or an outdated name; distinct by hash of the abstract project.")
 ASSUMPTIONS = [
